@@ -118,6 +118,11 @@ def domain_dims(rng, flavour, scen):
         scen['refuse'] = sorted({rng.randint(1, 3) for _ in range(rng.randint(1, 2))})
     if flavour != 'c01' and rng.random() < 0.12:
         scen['spawn'] = rng.choice(['now', U, D0 / 2])
+    if rng.random() < 0.2:
+        # the wrapped callable is an ordinary function that returns an awaitable (a thin `def` around an `async def`,
+        # a functools.partial of one); in 'plain_syncraise' its scripted failures are raised before any awaitable exists
+        # (argument validation): an invocation that started and ended in the same instant
+        scen['fnkind'] = rng.choice(['plain', 'plain_syncraise', 'partial'] if flavour != 'c01' else ['plain', 'partial'])
     return scen
 
 
@@ -271,6 +276,30 @@ class CacheHarness:
                 emit('iend', n, 'ok')
                 return None if scen.get('result') == 'none' else (key, n)
 
+            fnkind = scen.get('fnkind', 'async')
+            f_async = f
+            if fnkind == 'partial':
+                import functools
+
+                async def f_extra(tag, key):
+                    return await f_async(key)
+                f = functools.partial(f_extra, 'tag')
+            elif fnkind in ('plain', 'plain_syncraise'):
+                def f(key):       # noqa: F811
+                    if fnkind == 'plain_syncraise':
+                        dur, fail = invs[min(ninv[0], len(invs) - 1)]
+                        if fail:
+                            ninv[0] += 1
+                            n = ninv[0]
+                            lp = aio.get_running_loop()
+                            emit('istart', n, key, lp.sim_name, cid_var.get())
+                            if hasattr(s, 'inv_begin'):
+                                s.inv_begin(key, n, lp)
+                            if hasattr(s, 'inv_end'):
+                                s.inv_end(n)
+                            emit('iend', n, 'raise')
+                            raise (HarnessSignal if scen.get('fail_class') == 'signal' else HarnessError)(n)
+                    return f_async(key)
             cf = A.threadsafe_async_cache(f, cache=cache) if scen['cache'] != 'dict' \
                 else A.threadsafe_async_cache(f)
             box['cf'] = cf
@@ -891,9 +920,11 @@ class CacheCheck(Check):
         st = res.stats
         st['executions'] += 1
         st[f'fam_{case["fam"]}'] += 1
-        for dim in ('result', 'fail_class', 'unwind', 'refuse', 'spawn'):
+        for dim in ('result', 'fail_class', 'unwind', 'refuse', 'spawn', 'fnkind'):
             if scen.get(dim):
-                st[f'dimension_{dim}' + (f'_{scen[dim]}' if dim in ('result', 'fail_class') else '')] += 1
+                st[f'dimension_{dim}' + (f'_{scen[dim]}' if dim in ('result', 'fail_class', 'fnkind') else '')] += 1
+        if scen.get('fnkind') == 'plain_syncraise' and any(e[0] == 'iend' and e[2] == 'raise' for e in r.log):
+            st['function_raised_before_returning_an_awaitable'] += 1
         st[f'strategy_{strat.kind}'] += 1
         if any(e[0] == 'inject' for e in r.log):
             st['injected_loop_stop'] += 1
@@ -956,8 +987,8 @@ class CacheCheck(Check):
         if self.pid == 'C05':
             return {'waited_until_ok': 500 if q else 10000, 'waited_until_raise': 30 if q else 600,
                     'waited_until_cancel': 30 if q else 600, 'waited_until_loopdeath': 30 if q else 600,
-                    'injected_loop_stop': 100 if q else 2000}
-        return {'own_failure': 100 if q else 2000, 'own_cancel': 100 if q else 2000,
+                    'injected_loop_stop': 100 if q else 2000, 'function_raised_before_returning_an_awaitable': 30 if q else 600}
+        return {'function_raised_before_returning_an_awaitable': 30 if q else 600, 'own_failure': 100 if q else 2000, 'own_cancel': 100 if q else 2000,
                 'own_timeout': 100 if q else 2000, 'recompute_after_failure': 100 if q else 2000}
 
     @property
